@@ -1,16 +1,7 @@
-use std::{
-    fs::File,
-    io::{BufRead, BufReader},
-    path::Path,
-};
+use std::{fs, path::Path};
 
 pub fn file_char_stream(path: &Path) -> Result<impl Iterator<Item = char>, std::io::Error> {
-    let f = BufReader::new(File::open(path)?);
-    Ok(f.lines().flat_map(|line| {
-        line.unwrap()
-            .chars()
-            .chain(std::iter::once('\n'))
-            .collect::<Vec<_>>()
-            .into_iter()
-    }))
+    // an unreadable or non-UTF-8 file is an error of the caller, not a panic
+    let text = fs::read_to_string(path)?;
+    Ok(text.chars().collect::<Vec<_>>().into_iter())
 }
